@@ -544,3 +544,124 @@ func jsonNormalize(o sim.Obj) sim.Obj {
 	}
 	return out
 }
+
+// The target's status as the API server has it NOW, not as the cache had it when the sync began:
+// the sync starts with a live read and write of the target (the finalizer is added), the watch is
+// held back so that the cached copy still shows an older status. A null status in the answer leaves
+// the live status alone; an answer equal to the live status sends no status write; an answer equal
+// to the stale status is a change and is written.
+func TestVerif_C16_StaleStatus(t *testing.T) {
+	for _, kind := range []string{"Thing", "NoStatus", "ClusterThing"} {
+		for _, answer := range []string{"null", "equal-to-live", "equal-to-cached"} {
+			for _, labels := range []bool{false, true} {
+				kind, answer, labels := kind, answer, labels
+				id := fmt.Sprintf("c16-stale-status-%s-%s-labels%v", strings.ToLower(kind), answer, labels)
+				if !sim.WantCase(id) {
+					continue
+				}
+				t.Run(id, func(t *testing.T) {
+					t.Parallel()
+					runC16StaleStatus(t, id, kind, answer, labels)
+				})
+			}
+		}
+	}
+}
+
+func runC16StaleStatus(t *testing.T, id, kind, answer string, labels bool) {
+	rep := sim.R()
+	rep.Begin("C16", id)
+	uid := uniqueID("ss")
+	sc := &dScenario{ID: uid, Target: kind, Finalize: true, Kinds: []dKind{{Kind: "ConfigMap", Method: "InPlace"}}}
+	r := prepareD(sc)
+	defer r.close()
+	w := r.w
+	w.caseID = id
+	s := w.sim
+	ti := sc.targetInfo()
+	tgvr := ti.GVR()
+	cachedStatus := sim.Obj{"phase": "old"}
+	liveStatus := sim.Obj{"phase": "new"}
+	setStatus := func(st sim.Obj) {
+		cur := sim.DeepCopy(s.Peek(tgvr, sc.ns(), sc.targetName()))
+		cur["status"] = sim.DeepCopy(st)
+		delete(cur["metadata"].(map[string]interface{}), "resourceVersion")
+		if ti.HasStatus {
+			s.ExtUpdateStatus(tgvr, cur)
+		} else {
+			s.ExtMutate(tgvr, sc.ns(), sc.targetName(), func(o sim.Obj) { o["status"] = sim.DeepCopy(st) })
+		}
+	}
+	setStatus(cachedStatus)
+	s.ExtMutate(tgvr, sc.ns(), sc.targetName(), func(o sim.Obj) {
+		switch answer {
+		case "equal-to-live":
+			sim.SetNested(o, sim.DeepCopy(liveStatus), "spec", "decorStatus")
+		case "equal-to-cached":
+			sim.SetNested(o, sim.DeepCopy(cachedStatus), "spec", "decorStatus")
+		}
+		if labels {
+			sim.SetNested(o, sim.Obj{"decorated": "yes"}, "spec", "setLabels")
+		}
+	})
+	if err := w.start(); err != nil {
+		inconclusive(t, "C16", id, err)
+		return
+	}
+	defer w.flushCounters("C16")
+	if !w.quiesce() {
+		inconclusive(t, "C16", id, w.watchdog)
+		return
+	}
+	// drain the add event: this test drives the one sync it judges
+	for w.q.Len() > 0 {
+		k, _ := w.q.Get()
+		w.q.Forget(k)
+		w.q.Done(k)
+	}
+	s.HoldWatch(tgvr, true)
+	setStatus(liveStatus)
+	w.noViewMonitor = true
+	w.q.Add(r.key())
+	var sr *syncResult
+	for w.q.Len() > 0 && sr == nil {
+		if x := w.step(); x != nil && x.Key == r.key() {
+			sr = x
+		}
+	}
+	s.HoldWatch(tgvr, false)
+	if sr == nil || len(sr.Hooks) == 0 {
+		inconclusive(t, "C16", id, fmt.Errorf("target not synced / hook not called"))
+		return
+	}
+	finalizerWritten, statusWrites := false, 0
+	for _, q := range sr.Requests {
+		if q.Actor != "mc" || q.GVR != tgvr || !q.Mutating() || !q.OK() || !q.Applied {
+			continue
+		}
+		if q.Pre != nil && q.Post != nil {
+			if len(sim.Finalizers(q.Pre)) != len(sim.Finalizers(q.Post)) {
+				finalizerWritten = true
+			}
+			if !reflect.DeepEqual(jsonNormalize(sim.Obj{"s": q.Pre["status"]}), jsonNormalize(sim.Obj{"s": q.Post["status"]})) {
+				statusWrites++
+			}
+		}
+	}
+	viol := func(sig, detail string) {
+		rep.Violation("C16", id, sig, detail, map[string]interface{}{"kind": kind, "answer": answer, "labels": labels, "requests": sim.DescribeLog(sr.Requests, false), "hooks": describeHooks(sr.Hooks)})
+	}
+	live := s.Peek(tgvr, sc.ns(), sc.targetName())
+	got := jsonNormalize(sim.Obj{"s": live["status"]})
+	want := liveStatus
+	if answer == "equal-to-cached" {
+		want = cachedStatus
+	}
+	if sr.Err == nil && !reflect.DeepEqual(got, jsonNormalize(sim.Obj{"s": want})) {
+		viol("stale-status:status-not-as-answered:"+answer, fmt.Sprintf("after the sync the target's status is %v; the answer (%s) against the live status %v gives %v", live["status"], answer, liveStatus, want))
+	}
+	if answer != "equal-to-cached" && statusWrites > 0 {
+		viol("stale-status:status-written:"+answer, fmt.Sprintf("the answer (%s) leaves the live status as it is, yet %d accepted request(s) changed it", answer, statusWrites))
+	}
+	rep.Case("C16", id, finalizerWritten, id, map[string]interface{}{"kind": kind, "answer": answer, "labels": labels, "finalizerAddedInThisSync": finalizerWritten, "statusChangingWrites": statusWrites, "err": fmt.Sprint(sr.Err)})
+}
